@@ -84,12 +84,15 @@ Fixpoint occ (n : nat) (s : subst) (x : N) (vs : list N) : option bool :=
       end
   end.
 
-(** the `for a, b in zip(s.inputs, t.inputs): if a.ty.linear and b.ty.linear and
-    a.flags != b.flags: return None` loop of the FunctionType case *)
+(** the loop of the FunctionType case
+      for a, b in zip(s.inputs, t.inputs):
+          if not a.ty.copyable and not b.ty.copyable and a.flags != b.flags: return None
+    (owned vs borrowed changes the Hugr signature for every non-copyable input type, affine
+    ones such as arrays included, not only for linear ones) *)
 Fixpoint flags_ok (f1 : list N) (a1 : list ty) (f2 : list N) (a2 : list ty) : bool :=
   match f1, a1, f2, a2 with
   | x :: f1', u :: a1', y :: f2', v :: a2' =>
-      negb (linear u && linear v && negb (N.eqb x y)) && flags_ok f1' a1' f2' a2'
+      negb (negb (copyable u) && negb (copyable v) && negb (N.eqb x y)) && flags_ok f1' a1' f2' a2'
   | _, _, _, _ => true
   end.
 
